@@ -469,6 +469,7 @@ func runE2(spec RunSpec, ch *Choices) *RunResult {
 		}
 	}
 	// invariant at every step: a finished stream has no write in flight
+	finSeen := false
 	x.d.AfterStep = func() bool {
 		// ... and the stream's context is done only once the stream is finished
 		if x.st != nil && sigClosed(x.st.Context().Done()) && !sigClosed(x.st.Finished()) {
@@ -476,10 +477,17 @@ func runE2(spec RunSpec, ch *Choices) *RunResult {
 		}
 		if x.st != nil && sigClosed(x.st.Finished()) {
 			for _, t := range x.rt.Tasks() {
+				// a receive parked inside its decoder still holds the delivered packet: it is in flight.
+				// Judged at the step in which finished is first seen (a receive that BEGINS on a
+				// finished stream while a Cancel is still inside terminate may yet get a message)
+				if !finSeen && t.State == verifsim.StReady && t.Label == "enc.Unmarshal" {
+					x.viol("finished-early", "stream reports finished while one of its receives is still decoding the delivered message", t.Name+" "+t.Label)
+				}
 				if t.State != verifsim.StExited && strings.HasPrefix(t.Label, "net.write") {
 					x.viol("finished-early", "stream reports finished while one of its writes is still in flight in the transport: op="+t.API, t.Name+" "+t.Label)
 				}
 			}
+			finSeen = true
 		}
 		return false
 	}
